@@ -12,6 +12,7 @@ REAL ListScheduler by harness/drivers/c06_sched.py, and then
 import json
 import math
 import os
+import re
 import subprocess
 import time
 from concurrent.futures import ThreadPoolExecutor
@@ -199,16 +200,16 @@ class SeqGen(object):
         if not finite:
             if u < 0.08:
                 return TINF
-            if u < 0.084:
+            if u < 0.0812:
                 return (INF, 0.5)
-            if u < 0.088:
+            if u < 0.0824:
                 return BOT
         last = self.rl.last
         if last[0] == INF:
             last = self.rh.last
         if late and last[0] in (INF, -INF):
             last = (1.0, 0.0)
-        if u < 0.14 or last[0] in (INF, -INF):     # anything from the pools (~5%: below `last` on purpose)
+        if u < 0.13 or last[0] in (INF, -INF):     # anything from the pools (~5%: below `last` on purpose)
             return (rng.choice(QPOOL), rng.choice(RPOOL))
         q = last[0] + rng.choice(LATE_STEPS if late else STEPS)
         if q == last[0]:
@@ -726,8 +727,24 @@ def analyse(ops, out, meta=None):
             bad("driver", k, "unknown op %r" % (op,))
             break
         steps.append("(%s, %s, %s)" % (fop, obs_term(oh, bh or (0, 0)), obs_term(ol, bl or (0, 0))))
-    return {"fail": state["fail"], "term": "mkCase " + C.coq_list(steps).replace("); (", ");\n (") if steps
-            else "mkCase []", "stats": st}
+    return {"fail": state["fail"], "term": share_literals("mkCase " + C.coq_list(steps)), "stats": st}
+
+
+BIGLIT = re.compile(r"(?<![\w%.])(\d{6,})(?![\d%])")
+
+
+def share_literals(term):
+    """Parsing a 64-bit Z literal is the dominant cost of a case file: bind each distinct one once."""
+    names = {}
+
+    def sub(m):
+        v = m.group(1)
+        if v not in names:
+            names[v] = "z%d" % len(names)
+        return names[v]
+    body = BIGLIT.sub(sub, term).replace("); (", ");\n (")
+    lets = "".join("let %s : Z := %s in\n" % (n, v) for v, n in names.items())
+    return "(%s%s)" % (lets, body)
 
 
 # ----------------------------------------------------------------------------------------------
@@ -1022,7 +1039,7 @@ def run(ctx, seqs_override=None):
             streams.append(stream)
 
     chunk = len(seqs) if seqs_override is not None and len(seqs) <= 200 else ctx.n(20, 100)
-    per_file = ctx.n(25, 100)
+    per_file = ctx.n(25, 50)
     batch = 3000
 
     agg = {"gets": 0, "answered_heap": 0, "answered_list": 0, "ties": 0, "guard_fired": 0, "empty_errors": 0,
